@@ -378,6 +378,17 @@ theorem pDecide_cases (fl : Flags) (g : Nat) (t : Ev) (ht : t.isTerminal = true)
   | error e => simp only []; split <;> simp
   | complete => simp only []; split <;> simp
 
+/-- the decision in terms of the specification's `resetsOn` -/
+theorem pDecide_eq (fl : Flags) (g : Nat) (t : Ev) (ht : t.isTerminal = true) (u : St) :
+    pDecide fl g t u = if fl.resetsOn t then reset g u
+      else match t with
+        | .error _ => { u with flagE := true }
+        | _ => { u with flagC := true } := by
+  cases t with
+  | next v => simp [Ev.isTerminal] at ht
+  | error e => simp only [pDecide, Flags.resetsOn]; by_cases h : fl.onError = true <;> simp [h]
+  | complete => simp only [pDecide, Flags.resetsOn]; by_cases h : fl.onComplete = true <;> simp [h]
+
 /-- the state just before the broadcast: proxy closed, reset-or-latch decided, subject terminated -/
 theorem tinv_start {s : St} {g : Nat} (t : Ev) (_ht : t.isTerminal = true) (hi : Inv s)
     (hsub : s.subject = some g) (ha : GenActive s g) (s2 : St)
@@ -422,7 +433,8 @@ theorem tinv_start {s : St} {g : Nat} (t : Ev) (_ht : t.isTerminal = true) (hi :
 theorem inv_pTerm {cfg : Cfg} {s : St} {g : Nat} (t : Ev) (ht : t.isTerminal = true) (hi : Inv s)
     (hsub : s.subject = some g) (ha : GenActive s g) :
     Inv (pTerm cfg g t s) ∧ (pTerm cfg g t s).ngens = s.ngens ∧ (pTerm cfg g t s).nsubs = s.nsubs ∧
-      ((pTerm cfg g t s).gens g).upTorn = true ∧ (∀ k, k ≠ g → (pTerm cfg g t s).gens k = s.gens k) := by
+      ((pTerm cfg g t s).gens g).upTorn = true ∧ (∀ k, k ≠ g → (pTerm cfg g t s).gens k = s.gens k) ∧
+      (pTerm cfg g t s).subject = (if cfg.flags.resetsOn t then none else some g) := by
   have hc : t.code ≠ 0 := by cases t <;> simp [Ev.code, Ev.isTerminal] at *
   have hterm : Status.ofTerminal t ≠ Status.open := by cases t <;> simp [Status.ofTerminal, Ev.isTerminal] at *
   have hss : s.sourceSubscription = some g := by rw [hi.shared]; exact hsub
@@ -435,7 +447,13 @@ theorem inv_pTerm {cfg : Cfg} {s : St} {g : Nat} (t : Ev) (ht : t.isTerminal = t
     unfold pTerm
     rw [if_pos ha.pStatus]
   rw [hp]
-  generalize pDecide cfg.flags g t (s.modGen g fun x => { x with pStatus := t.code }) = s2 at h2
+  have hsubj2 : (pDecide cfg.flags g t (s.modGen g fun x => { x with pStatus := t.code })).subject =
+      (if cfg.flags.resetsOn t then none else some g) := by
+    rw [pDecide_eq _ _ _ ht]
+    split
+    · rw [hr]; rfl
+    · cases t <;> exact hsub
+  generalize pDecide cfg.flags g t (s.modGen g fun x => { x with pStatus := t.code }) = s2 at h2 hsubj2
   have hopen : (s2.gens g).subj.status = Status.open := by
     rcases h2 with k | k | k <;> rw [k] <;> simp [termResetState, ha.isOpen]
   obtain ⟨hT, hng, hns, hpan, hgens, hps, hpd, hpf, hup, hut, hst3, hmode⟩ := tinv_start t ht hi hsub ha s2 h2 _ rfl
@@ -443,6 +461,7 @@ theorem inv_pTerm {cfg : Cfg} {s : St} {g : Nat} (t : Ev) (ht : t.isTerminal = t
     unfold subjTerm
     rw [hopen]
   rw [hst]
+  have hsubj3 : (s2.modGen g fun x => { x with subj := { x.subj with status := Status.ofTerminal t } }).subject = s2.subject := rfl
   generalize (s2.modGen g fun x => { x with subj := { x.subj with status := Status.ofTerminal t } }) = s3 at *
   obtain ⟨h4, f4, c4⟩ := bcast_tinv (fl := cfg.flags) t ht ((s3.gens g).subj.obs) hT
     (fun i hi' => by rw [hT.obs] at hi'; exact (mem_openSubs.mp hi').1)
@@ -465,7 +484,8 @@ theorem inv_pTerm {cfg : Cfg} {s : St} {g : Nat} (t : Ev) (ht : t.isTerminal = t
   have hos6 : openSubs ((subjClear g s4).modGen g fun x => { x with pDone := true, pFin := false, upTorn := true }) = openSubs s4 :=
     openSubs_congr rfl (fun i _ => Iff.rfl)
   refine ⟨?_, by simp [subjClear, f4.ngens, hng], by simp [subjClear, f4.nsubs, hns], by simp [subjClear],
-    fun k hkg => by simp [subjClear, hkg, f4.gens k hkg, hgens k hkg]⟩
+    fun k hkg => by simp [subjClear, hkg, f4.gens k hkg, hgens k hkg],
+    by simp [subjClear, f4.subject, hsubj3, hsubj2]⟩
   constructor
   · simp [subjClear]; exact h4.shared
   · intro i hlt hs
@@ -527,10 +547,10 @@ theorem inv_pEmit {cfg : Cfg} {s : St} {g : Nat} (x : Ev) (hi : Inv s) (hsub : s
     have hs := pNext_sim cfg g v s
     exact ⟨hi.sim hs, hs.ngens, hs.nsubs, fun k _ => by simp [St.upLive, pEmit, hs.upSub, hs.upTorn]⟩
   | error e =>
-    obtain ⟨h1, h2, h3, _, h5⟩ := inv_pTerm (cfg := cfg) (.error e) rfl hi hsub ha
+    obtain ⟨h1, h2, h3, _, h5, _⟩ := inv_pTerm (cfg := cfg) (.error e) rfl hi hsub ha
     exact ⟨h1, h2, h3, fun k hk => by simp [St.upLive, pEmit, h5 k hk]⟩
   | complete =>
-    obtain ⟨h1, h2, h3, _, h5⟩ := inv_pTerm (cfg := cfg) .complete rfl hi hsub ha
+    obtain ⟨h1, h2, h3, _, h5, _⟩ := inv_pTerm (cfg := cfg) .complete rfl hi hsub ha
     exact ⟨h1, h2, h3, fun k hk => by simp [St.upLive, pEmit, h5 k hk]⟩
 
 theorem push_fold_none (cfg : Cfg) (x : Ev) (s : St) (n : Nat) (h : ∀ k, k < n → s.upLive k = false) :
